@@ -1,3 +1,5 @@
 module go.linecorp.com/garr
 
+go 1.23.5
+
 require github.com/valyala/fastrand v1.1.0
